@@ -85,14 +85,16 @@ def update_namespaces(
     """
     for name, other_ns in other_namespaces.items():
         curr_ns = namespaces.get(name)
+        # Never share nor modify in place a list of namespaces:
+        # it may also be bound to a copy of the grammar or to the other grammar.
         if curr_ns is None:
-            namespaces[name] = other_ns
+            namespaces[name] = other_ns if isinstance(other_ns, str) else [*other_ns]
         elif isinstance(curr_ns, str):
             if isinstance(other_ns, str):
                 namespaces[name] = [curr_ns, other_ns]
             else:
                 namespaces[name] = [curr_ns, *other_ns]
         elif isinstance(other_ns, str):
-            namespaces[name].append(other_ns)  # type:ignore[union-attr]
+            namespaces[name] = [*curr_ns, other_ns]
         else:
-            namespaces[name].extend(other_ns)  # type:ignore[union-attr]
+            namespaces[name] = [*curr_ns, *other_ns]
